@@ -83,7 +83,7 @@ Lemma tables_total : forall c,
   (exists d, assoc (variant_name c) bn254_dispatch = Some d /\
              match d with Some arr => assoc arr const_arrays <> None | None => True end) /\
   bn254_exact_match = true /\
-  from_str_normaliser = "to_uppercase"%string /\
+  from_str_normaliser = "to_ascii_uppercase"%string /\
   Forall (fun e => Z.of_nat (length (snd (snd e))) = fst (snd e)) const_arrays.
 Proof.
   intro c.
@@ -183,20 +183,22 @@ Lemma primes_are_documented : forall c,
   prime c = doc_prime c /\ prime_size c = bit_size (doc_prime c) /\ doc_bits c = Some (prime_size c).
 Proof. intro c. destruct c; vm_compute; repeat split; reflexivity. Qed.
 
-(* the strict reading of the sources: every anchored item and every file
-   inventory matched its template completely; the decimal literals read from
-   Curve::prime() are the executed primes; prime_size() is the bit length of
-   the stored prime (the body of UsefulConstants::prime_size is `self.prime.bits()`) *)
-Lemma sources_recognised :
-  map fst source_shape = anchored_items /\
-  Forall (fun e => snd e = true) source_shape /\
+(* READER CHECK, not a property theorem (third audit): the Python source reader
+   (lib/props/c11shape.py) reported exactly the anchored items of
+   Spec.CurvesSpec.anchored_items and marked each as matched.  This re-reads
+   booleans the reader wrote; its content is the reader.  It is kept here so that
+   an unmatched item also stops the build of the proofs. *)
+Lemma reader_matched_every_item :
+  map fst source_shape = anchored_items /\ Forall (fun e => snd e = true) source_shape.
+Proof. split; [vm_compute; reflexivity | repeat constructor]. Qed.
+
+(* the decimal literals read from Curve::prime() are the executed primes;
+   the executed prime_size() is the bit length of the executed prime (the body
+   of UsefulConstants::prime_size is `self.prime.bits()`) *)
+Lemma prime_literals_are_executed_primes :
   (forall c, assoc (variant_name c) source_prime_literals = Some (prime c)) /\
   (forall c, prime_size c = bit_size (prime c)).
-Proof.
-  split; [vm_compute; reflexivity|].
-  split; [repeat constructor|].
-  split; intro c; destruct c; vm_compute; reflexivity.
-Qed.
+Proof. split; intro c; destruct c; vm_compute; reflexivity. Qed.
 
 Lemma prime_size_default : prime_size Bn254 = 254.
 Proof. vm_compute. reflexivity. Qed.
@@ -210,10 +212,10 @@ Proof.
 Qed.
 
 Lemma num2bits_guard_exact : forall tname n,
-  In tname ["Num2Bits"; "Bits2Num"]%string -> 0 <= n ->
+  In tname ["Num2Bits"; "Bits2Num"]%string ->
   (num2bits_flagged Bn254 tname (VField n) = Some false <-> n < 254).
 Proof.
-  intros tname n Hin Hn. unfold num2bits_flagged.
+  intros tname n Hin. unfold num2bits_flagged.
   replace (nonstrict_active Bn254 DTemplate) with true by (vm_compute; reflexivity).
   rewrite prime_size_default.
   destruct Hin as [<-|[<-|[]]]; cbn -[Z.ltb Z.add];
@@ -291,20 +293,26 @@ Qed.
 (* LessThan                                                             *)
 (* ------------------------------------------------------------------ *)
 Lemma pow_threshold : forall h t k,
-  0 <= t -> 2 ^ t - 1 <= h -> h < 2 ^ (t + 1) - 1 -> 0 <= k ->
+  0 <= t -> 2 ^ t - 1 <= h -> h < 2 ^ (t + 1) - 1 ->
   ((k <? t + 1) = true <-> 2 ^ k - 1 <= h).
 Proof.
-  intros h t k Ht Hlo Hhi Hk. split; intro H.
+  intros h t k Ht Hlo Hhi.
+  destruct (Z_lt_ge_dec k 0) as [Hneg|Hk].
+  { (* a negative size: 2^k = 0 in Z, and the guard holds as well *)
+    assert (0 < 2 ^ t) by (apply Z.pow_pos_nonneg; lia).
+    split; intro H0; [rewrite Z.pow_neg_r by lia; lia | apply Z.ltb_lt; lia]. }
+  assert (Hk' : 0 <= k) by lia. clear Hk.
+  split; intro H.
   - apply Z.ltb_lt in H.
     assert (2 ^ k <= 2 ^ t) by (apply Z.pow_le_mono_r; lia). lia.
   - apply Z.ltb_lt. destruct (Z_lt_ge_dec k (t + 1)) as [L|G]; [exact L|exfalso].
     assert (2 ^ (t + 1) <= 2 ^ k) by (apply Z.pow_le_mono_r; lia). lia.
 Qed.
 
-Lemma lessthan_guard_exact : forall c k, 0 <= k ->
+Lemma lessthan_guard_exact : forall c k,
   (lessthan_range_checked c k = true <-> kbit_values_nonnegative c k).
 Proof.
-  intros c k Hk. unfold lessthan_range_checked, lt_guard, kbit_values_nonnegative.
+  intros c k. unfold lessthan_range_checked, lt_guard, kbit_values_nonnegative.
   destruct c.
   - replace (prime_size Bn254) with 254 by (vm_compute; reflexivity).
     cbn [lessthan_guard fst snd cmp_eval]. change (254 + -1) with (252 + 1).
@@ -354,13 +362,12 @@ Qed.
 
 (* the values reported: inputs of LessThan without a sufficient range check *)
 Lemma lessthan_reports_exact : forall c prog,
-  (forall v k, In (INum2Bits v (VField k)) (collected_inputs prog) -> 0 <= k) ->
   exists vs, lessthan_reports c prog = Ok vs /\
   forall v, In v vs <->
     (In (ILessThan v) (collected_inputs prog) /\
      forall k, In (INum2Bits v (VField k)) (collected_inputs prog) -> ~ kbit_values_nonnegative c k).
 Proof.
-  intros c prog Hnn. unfold lessthan_reports.
+  intros c prog. unfold lessthan_reports.
   assert (Hp : existsb components_panic prog = false).
   { destruct (existsb components_panic prog) eqn:E; [|reflexivity].
     apply existsb_exists in E. destruct E as [s [_ Hs]]. rewrite components_never_panic in Hs. discriminate. }
@@ -373,14 +380,14 @@ Proof.
   - intros [_ [Hlt Hg]]. split; [exact Hlt|]. intros k Hin Hk.
     assert (E : existsb (lt_guard c) (sizes_of v I) = true).
     { apply existsb_exists. exists (VField k). split; [apply sizes_of_In; exact Hin|].
-      apply (lessthan_guard_exact c k (Hnn _ _ Hin)). exact Hk. }
+      apply (lessthan_guard_exact c k). exact Hk. }
     congruence.
   - intros [Hlt Hall]. split; [|split; [exact Hlt|]].
     + apply in_map_iff. exists (ILessThan v). split; [reflexivity|exact Hlt].
     + destruct (existsb (lt_guard c) (sizes_of v I)) eqn:E; [exfalso|reflexivity].
       apply existsb_exists in E. destruct E as [size [Hs Hg]].
       apply sizes_of_In in Hs. destruct size as [k| |]; try discriminate.
-      apply (Hall k Hs). apply (lessthan_guard_exact c k (Hnn _ _ Hs)). exact Hg.
+      apply (Hall k Hs). apply (lessthan_guard_exact c k). exact Hg.
 Qed.
 
 (* ------------------------------------------------------------------ *)
@@ -420,12 +427,23 @@ Proof.
   destruct (Ascii.eqb (upper_ascii a) b) eqn:E; reflexivity.
 Qed.
 
-Lemma curve_names_case_insensitive : forall s c, ascii_only s = true ->
-  (parse_curve s = Accepted c <-> same_ignoring_case s (curve_doc_name c) = true).
+(* the normaliser of the current tree is the ASCII one: parse_curve is, for
+   EVERY string (bytes >= 128 included), the look-up of its ASCII upper-casing *)
+Lemma parse_curve_current : forall s,
+  parse_curve s = match assoc (upper s) from_str_arms with
+                  | Some v => match curve_of_variant v with Some c => Accepted c | None => Unmodelled end
+                  | None => Rejected
+                  end.
 Proof.
-  intros s c Hs. unfold parse_curve.
-  replace (String.eqb from_str_normaliser "to_uppercase") with true by reflexivity.
-  rewrite Hs. cbn [negb].
+  intro s. unfold parse_curve, normalise.
+  replace (String.eqb from_str_normaliser "to_ascii_uppercase") with true by reflexivity.
+  reflexivity.
+Qed.
+
+Lemma curve_names_case_insensitive : forall s c,
+  parse_curve s = Accepted c <-> same_ignoring_case s (curve_doc_name c) = true.
+Proof.
+  intros s c. rewrite parse_curve_current.
   rewrite same_ignoring_case_upper by (destruct c; reflexivity).
   unfold from_str_arms. cbn [assoc].
   destruct (String.eqb (upper s) "BN254") eqn:E1.
@@ -437,33 +455,68 @@ Proof.
   destruct c; cbn [curve_doc_name]; rewrite ?E1, ?E2, ?E3; split; discriminate.
 Qed.
 
-Lemma parse_curve_ascii_in_model : forall s, ascii_only s = true -> parse_curve s <> OutsideModel.
+Lemma parse_curve_in_model : forall s, parse_curve s <> Unmodelled.
 Proof.
-  intros s Hs. unfold parse_curve.
-  replace (String.eqb from_str_normaliser "to_uppercase") with true by reflexivity.
-  rewrite Hs. cbn [negb]. unfold from_str_arms. cbn [assoc].
+  intro s. rewrite parse_curve_current. unfold from_str_arms. cbn [assoc].
   destruct (String.eqb (upper s) "BN254"); [vm_compute; discriminate|].
   destruct (String.eqb (upper s) "BLS12_381"); [vm_compute; discriminate|].
   destruct (String.eqb (upper s) "GOLDILOCKS"); [vm_compute; discriminate|].
   discriminate.
 Qed.
 
-Lemma nothing_else_accepted : forall s, ascii_only s = true ->
-  (parse_curve s = Rejected <-> forall c, same_ignoring_case s (curve_doc_name c) = false).
+Lemma nothing_else_accepted : forall s,
+  parse_curve s = Rejected <-> forall c, same_ignoring_case s (curve_doc_name c) = false.
 Proof.
-  intros s Hs. split.
+  intro s. split.
   - intros H c. destruct (same_ignoring_case s (curve_doc_name c)) eqn:E; [|reflexivity].
-    apply (curve_names_case_insensitive s c Hs) in E. congruence.
+    apply (curve_names_case_insensitive s c) in E. congruence.
   - intro H. destruct (parse_curve s) as [c| |] eqn:E; [| reflexivity |].
-    + apply (curve_names_case_insensitive s c Hs) in E. rewrite H in E. discriminate.
-    + exfalso. exact (parse_curve_ascii_in_model s Hs E).
+    + apply (curve_names_case_insensitive s c) in E. rewrite H in E. discriminate.
+    + exfalso. exact (parse_curve_in_model s E).
 Qed.
+
+(* a spelling with a byte >= 128 is never a curve name: no documented name has one *)
+Lemma same_letter_ascii_table :
+  forallb (fun a => forallb (fun b =>
+    implb (same_letter a b && (N_of_ascii b <? 128)%N) (N_of_ascii a <? 128)%N) all_ascii) all_ascii = true.
+Proof. vm_compute. reflexivity. Qed.
+
+Lemma same_ignoring_case_ascii : forall s t, ascii_only t = true -> same_ignoring_case s t = true -> ascii_only s = true.
+Proof.
+  induction s as [|a s IH]; intros t Ht H; [reflexivity|].
+  destruct t as [|b t]; [discriminate|]. simpl in *.
+  apply andb_true_iff in Ht. destruct Ht as [Hb Ht]. apply andb_true_iff in H. destruct H as [Hab H].
+  pose proof same_letter_ascii_table as T.
+  rewrite forallb_forall in T. specialize (T a (all_ascii_complete a)).
+  rewrite forallb_forall in T. specialize (T b (all_ascii_complete b)).
+  rewrite Hab, Hb in T. simpl in T. rewrite T. simpl. exact (IH t Ht H).
+Qed.
+
+Lemma non_ascii_rejected : forall s, ascii_only s = false -> parse_curve s = Rejected.
+Proof.
+  intros s Hs. apply nothing_else_accepted. intro c.
+  destruct (same_ignoring_case s (curve_doc_name c)) eqn:E; [|reflexivity].
+  apply same_ignoring_case_ascii in E; [congruence|]. destruct c; reflexivity.
+Qed.
+
+(* the defect repaired in /repo (third audit): under the previous normaliser,
+   str::to_uppercase, spellings that are NOT case variants were accepted - the
+   model of that normaliser accepts them (dotless i, long s), the model of the
+   current one rejects them *)
+Lemma unicode_normaliser_accepts_more :
+  parse_curve_unicode "goldılocks" = Accepted Goldilocks /\
+  parse_curve_unicode "blſ12_381" = Accepted Bls12_381 /\
+  parse_curve_unicode "goldilockſ" = Accepted Goldilocks /\
+  parse_curve "goldılocks" = Rejected /\
+  parse_curve "blſ12_381" = Rejected /\
+  parse_curve "goldilockſ" = Rejected.
+Proof. vm_compute. repeat split; reflexivity. Qed.
 
 (* the accept/reject table obtained by executing Curve::from_str *)
 Definition decode_result (r : option string) : parse_result :=
   match r with
   | None => Rejected
-  | Some v => match curve_of_variant v with Some c => Accepted c | None => OutsideModel end
+  | Some v => match curve_of_variant v with Some c => Accepted c | None => Unmodelled end
   end.
 
 Definition parse_result_eqb (a b : parse_result) : bool :=
@@ -477,15 +530,13 @@ Lemma parse_result_eqb_eq : forall a b, parse_result_eqb a b = true -> a = b.
 Proof. intros [[]| |] [[]| |]; simpl; congruence. Qed.
 
 Lemma curve_name_table_check :
-  forallb (fun e => ascii_only (fst e) && parse_result_eqb (parse_curve (fst e)) (decode_result (snd e))) curve_name_table = true.
+  forallb (fun e => parse_result_eqb (parse_curve (fst e)) (decode_result (snd e))) curve_name_table = true.
 Proof. vm_compute. reflexivity. Qed.
 
-Lemma curve_name_table_agrees : forall s r, In (s, r) curve_name_table ->
-  ascii_only s = true /\ parse_curve s = decode_result r.
+Lemma curve_name_table_agrees : forall s r, In (s, r) curve_name_table -> parse_curve s = decode_result r.
 Proof.
   intros s r H. pose proof curve_name_table_check as T. rewrite forallb_forall in T.
-  specialize (T (s, r) H). simpl in T. apply andb_true_iff in T. destruct T as [T1 T2].
-  split; [exact T1|]. apply parse_result_eqb_eq. exact T2.
+  specialize (T (s, r) H). simpl in T. apply parse_result_eqb_eq. exact T.
 Qed.
 
 (* the executed table covers every case variant of the three names *)
